@@ -170,9 +170,62 @@ def synth_cases(ctx, mg):
 _cases_base = cases
 
 
+def forced_cases(ctx):
+    """the header search with python-ecdsa's (r, s) and the message digest both chosen: reaches the point the
+    sign-then-verify theorem excludes (`hinf`: R has odd y and 2z + r d = 0 mod n, where the first candidate key is
+    the point at infinity and the library raises) and its neighbours.  The model must behave like the code there too."""
+    import coincurve
+    rng = ctx.rng
+    for j in range(ctx.n(12, 200)):
+        net = rng.choice(NETS); c = rng.random() < 0.5
+        d = rng.randrange(1, N)
+        kind = ['inf-odd', 'inf-even', 'plain'][j % 3]
+        while True:
+            k = rng.randrange(1, N)
+            R = coincurve.PrivateKey(k.to_bytes(32, 'big')).public_key.format(compressed=False)
+            x, y = int.from_bytes(R[1:33], 'big'), int.from_bytes(R[33:], 'big')
+            if x >= N: continue
+            if kind == 'inf-odd' and y % 2 == 0: continue
+            if kind == 'inf-even' and y % 2 == 1: continue
+            break
+        r = x
+        z = (-(r * d) * pow(2, -1, N)) % N if kind != 'plain' else rng.randrange(0, 2 ** 256)
+        s = pow(k, -1, N) * (z + r * d) % N
+        if s == 0: continue
+        ctx.count('forced-' + kind)
+        pub = coincurve.PrivateKey(d.to_bytes(32, 'big')).public_key.format(compressed=False)[1:]
+        rs = r.to_bytes(32, 'big') + s.to_bytes(32, 'big')
+        zb = z.to_bytes(32, 'big')
+        def model(ans, net=net, pub=pub, c=c, rs=rs, zb=zb):
+            return (f'm:msg_sign_hdr_z {np(net)} {hx(pub[:32])} {hx(pub[32:])} {1 if c else 0} {hx(rs)} {hx(zb)}', ans)
+        yield Case(f'msg_sign_forced {net} {d} {1 if c else 0} {hx(rs)} {hx(zb)}', 'm', nontrivial=True, tag='forced-' + kind, model=model)
+
+
 def cases(ctx):  # noqa: F811
     yield from _cases_base(ctx)
     yield from synth_cases(ctx, magic())
+    yield from forced_cases(ctx)
+
+
+class _FakeHash:
+    def __init__(self, d): self.d = d
+    def digest(self): return self.d
+    def hexdigest(self): return self.d.hex()
+
+
+class _HashShim:
+    """stands in for the `hashlib` name inside bitcoinutils.keys: SHA-256 of one chosen input is replaced"""
+    def __init__(self, real, trigger, out): self.real = real; self.trigger = trigger; self.out = out
+    def sha256(self, data=b''):
+        if bytes(data) == self.trigger: return _FakeHash(self.out)
+        return self.real.sha256(data)
+    def __getattr__(self, n): return getattr(self.real, n)
+
+
+class _SigStub:
+    def __init__(self, key, rs): self.key = key; self.rs = rs
+    def sign_digest_deterministic(self, digest, **kw): return self.rs
+    def __getattr__(self, n): return getattr(self.key, n)
 
 
 def impl(op, a, ctx):
@@ -195,6 +248,20 @@ def impl(op, a, ctx):
         p2 = PublicKey.from_message_signature(m, raw).to_bytes()
         if p != p2: return 'ok constructors-differ'
         return f'ok {p[:32].hex()} {p[32:].hex()}'
+    if op == 'msg_sign_forced':
+        import bitcoinutils.keys as K
+        net = F.next(); d = F.int(); c = F.bool(); rs = F.bytes(); z = F.bytes(); setup(net)
+        m = 'm'
+        inner = hashlib.sha256(add_magic_prefix(m)).digest()
+        k = PrivateKey(secret_exponent=d)
+        k.key = _SigStub(k.key, rs)
+        real = K.hashlib
+        K.hashlib = _HashShim(real, inner, z)
+        try:
+            sgn = k.sign_message(m, compressed=c)
+        finally:
+            K.hashlib = real
+        return 'ok none' if sgn is None else 'ok ' + hx(base64.b64decode(sgn))
     if op == 'msg_verify':
         import coincurve
         F.bytes(); net = F.next().split(':')[0]; addr = F.bytes().decode(); sig = F.bytes(); m = F.bytes().decode(); setup(net)
